@@ -346,5 +346,50 @@ def r15_8(ctx):
     return r
 
 
+def r15_9(ctx):
+    """RFC 4588 4: an RTX payload is the 2-byte original sequence number (OSN) followed by the original payload;
+    SSRC / payload type are the RTX stream's, timestamp and marker the original's. wrap and unwrap must be inverse
+    on those fields."""
+    r = RuleResult("R15.9", "K6", "RTX wrap / unwrap: OSN in payload bytes 0..2, original payload from byte 2, timestamp and marker carried over")
+    w, u = ctx.body("rtx::wrap_rtx_packet"), ctx.body("rtx::unwrap_rtx_packet")
+    r.scope += [w.name, u.name]
+    from engine import layout
+    wl = layout.writer_layout(w)
+    if wl.get("sequence_number") == {0, 1}:
+        r.ok({"wrap": "payload[0..2] = original.header.sequence_number"})
+    else:
+        r.violate(w.name, "osn:write", w.where(0), "wrap_rtx_packet does not put the original sequence number into payload bytes 0..2 (found %s)" % sorted(wl.get("sequence_number", ())))
+    ext = [t for bi, t, p in w.calls() if p and p.endswith("::extend_from_slice")]
+    if ext and mir.has_field(w.term_operand(ext[0]["a"][1]), "payload") and len(ext) == 1:
+        r.ok({"wrap": "then the whole original payload"})
+    else:
+        r.violate(w.name, "payload:write", w.where(0), "wrap_rtx_packet does not append exactly the original payload after the OSN")
+    # unwrap: header sequence = from_be_bytes([payload[0], payload[1]]), payload = payload.slice(2..)
+    ctor = [(bi, t) for bi, t, p in u.calls() if p and p.endswith("RtpHeader::new")]
+    okseq = False
+    for bi, t in ctor:
+        seq = u.term_operand(t["a"][1])
+        idx = sorted(x[2][1] for x in mir.walk(seq) if x[0] == "index" and x[2][0] == "const")
+        okseq = seq[0] == "call" and seq[1].endswith("::from_be_bytes") and idx == [0, 1]
+        ts = u.term_operand(t["a"][2])
+        if okseq and mir.field_path(ts) and mir.field_path(ts).endswith("header.timestamp"):
+            r.ok({"unwrap": "sequence = u16::from_be_bytes(payload[0..2]), timestamp = rtx.header.timestamp"})
+        else:
+            r.violate(u.name, "osn:read", u.where(bi), "unwrap_rtx_packet does not rebuild the header from OSN = payload[0..2] and the RTX timestamp")
+    sl = [t for bi, t, p in u.calls() if p and p.endswith("Bytes::slice")]
+    if sl and mir.has(u.term_operand(sl[0]["a"][1]), lambda x: x[0] == "agg" and x[1].endswith("RangeFrom") and mir.int_value(x[3][0]) == 2):
+        r.ok({"unwrap": "payload = rtx.payload.slice(2..)"})
+    else:
+        r.violate(u.name, "payload:read", u.where(0), "unwrap_rtx_packet does not return the payload from byte 2 on")
+    for b in (w, u):
+        mk = [st for bi, si, st in core.field_writes(b, lambda f: f == "marker") if si is not None]
+        if mk and all((mir.field_path(b.term_rvalue(st["rv"])) or "").endswith("header.marker") for st in mk):
+            r.ok({b.name.split("::")[-1]: "marker copied"})
+        else:
+            r.violate(b.name, "marker", b.where(0), "the marker bit is not carried over")
+    r.need("RtpHeader::new in unwrap_rtx_packet", len(ctor), 1)
+    return r
+
+
 def run(ctx):
-    return [r15_1(ctx), r15_2(ctx), r15_3(ctx), r15_4(ctx), r15_5(ctx), r15_6(ctx), r15_7(ctx), r15_8(ctx)]
+    return [r15_1(ctx), r15_2(ctx), r15_3(ctx), r15_4(ctx), r15_5(ctx), r15_6(ctx), r15_7(ctx), r15_8(ctx), r15_9(ctx)]
